@@ -13,7 +13,8 @@ import time
 VERIF = os.path.dirname(os.path.dirname(os.path.abspath(__file__)))
 SEED = os.path.join(VERIF, "seeded")
 # changes found by the check of another property as well (established during development)
-ALSO = {"C01-2": ["C04"], "C14-2": ["C18"], "C17-3": ["C06"], "C01-6": ["C04"], "C01-7": ["C08"], "C14-4": ["C03"], "C18-7": ["C19"], "C20-6": ["C01", "C16"]}
+ALSO = {"C01-2": ["C04"], "C14-2": ["C18"], "C17-3": ["C06"], "C01-6": ["C04"], "C01-7": ["C08"], "C14-4": ["C03"], "C18-7": ["C19"], "C20-6": ["C01", "C16"],
+        "C01-8": ["C19"], "C07-8": ["C04"], "C10-8": ["C03"], "C11-8": ["C08"], "C12-8": ["C08"], "C13-8": ["C16"], "C14-8": ["C18"], "C17-8": ["C05"], "C18-8": ["C19"]}
 
 THOROUGH = set()
 SEEDS = {}
@@ -40,11 +41,11 @@ def main():
     mpath = os.path.join(SEED, "MATRIX.json" if not shard else "MATRIX.%d.json" % shard[0])
     matrix = json.load(open(mpath)) if os.path.exists(mpath) else {}
     ids = sorted(d for d in os.listdir(SEED) if re.match(r"^C\d\d-\d$", d))
+    if want:
+        ids = [x for x in ids if x in want]
     if shard:
         ids = [x for k, x in enumerate(ids) if k % shard[1] == shard[0]]
     for sid in ids:
-        if want and sid not in want:
-            continue
         d = os.path.join(SEED, sid)
         patch = os.path.join(d, "patch_ported.diff") if os.path.exists(os.path.join(d, "patch_ported.diff")) else os.path.join(d, "patch.diff")
         checks = [sid.split("-")[0]] + ALSO.get(sid, [])
